@@ -35,7 +35,7 @@ def main(argv=None):
         mid = [SR.random_super_input(rng, 4, rng.randint(2, 3), 3, True, rootsyn_p=0.2) for _ in range(200)]
         big = [SR.random_super_input(rng, rng.randint(4, 5), rng.randint(3, 4), 4, True, rootsyn_p=0.2) for _ in range(50)]
         deep = [SR.random_super_input(rng, rng.randint(4, 5), rng.randint(3, 4), rng.randint(3, 4), True, rootsyn_p=0.1, consistent_p=0.9) for _ in range(1200)]
-        budget, mp, bs = 3000, 30000, 900.0
+        budget, mp, bs = 5400, 30000, 900.0
     hist = [SR.random_super_input(rng, 3, rng.randint(2, 3), rng.randint(2, 3), True, consistent_p=0.9) for _ in range(10 if tier == "quick" else 80)]
     sections = [
         ("call history: the same solver called earlier in the same interpreter (same input at default costs, sibling input at other costs), "
